@@ -193,3 +193,62 @@ Theorem coo_getitem_multi_array_refuted :
     /\ getitem (fun _ => 0%nat) x ix = Raise RuntimeError.
 Proof. exact coo_getitem_multi_array_refuted_proof. Qed.
 Print Assumptions coo_getitem_multi_array_refuted.
+
+(* (3') DOK.__getitem__ (Model/DokGetitem.v).  A key that is not made of index sequences only is handed,
+   unchanged, to self.asformat("coo")[key] and the result converted back: for a valid DOK (distinct
+   in-range keys; not 0-d unless empty) and every index the COO theorems cover (basic; one array;
+   several arrays), the result has NumPy's shape, the same fill value, distinct in-range keys, and the
+   dense meaning NumPy prescribes.  Clauses (findings, refuted below): the empty key x[()] and a 0-d
+   DOK (D22), a key made of index sequences only (D24). *)
+From Verif Require Import Convert DokGetitem DokGetitemP.
+Theorem dok_getitem_den_partial :
+  forall (V : Type) (veqb : V -> V -> bool) (add : V -> V -> V) (kf : nat -> nat)
+         (sh : shape) (items : list (idx * V)) (fill : V) (ix : index),
+    dok_ok V sh items -> shape_okb sh = true -> no_zero_step ix = true -> coo_ix_ok sh ix ->
+    all_arrays_of ix = None ->
+    match np_index sh ix with
+    | Raise e => dok_getitem V veqb add kf sh items fill ix = Raise e /\ e = IndexError
+    | Ok (sh', g) =>
+      match dok_getitem V veqb add kf sh items fill ix with
+      | Ok (DArr sh'' it' f') =>
+        sh'' = sh' /\ f' = fill /\ NoDup (map fst it') /\ Forall (in_range sh') (map fst it')
+        /\ forall j, in_range sh' j -> den (dok_as_coo sh'' it' f') j = den (dok_as_coo sh items fill) (g j)
+      | Ok (DScalar v) => sh' = [] /\ v = den (dok_as_coo sh items fill) (g [])
+      | Raise _ => False
+      end
+    end.
+Proof. exact dok_getitem_den_proof. Qed.
+Print Assumptions dok_getitem_den_partial.
+
+(* _fancy_getitem agrees with NumPy on the keys it handles: one index sequence per axis, one length,
+   every entry in [0, extent) (no negative entries: they are not wrapped — D24) *)
+Theorem dok_fancy_getitem_den_partial :
+  forall (V : Type) (veqb : V -> V -> bool) (add : V -> V -> V) (kf : nat -> nat)
+         (sh : shape) (items : list (idx * V)) (fill : V) (ls : list (list Z)) (n : nat),
+    dok_ok V sh items -> fancy_ok sh ls n ->
+    exists g it',
+      np_index sh (map IArr ls) = Ok ([Z.of_nat n], g)
+      /\ dok_getitem V veqb add kf sh items fill (map IArr ls) = Ok (DArr [Z.of_nat n] it' fill)
+      /\ NoDup (map fst it') /\ Forall (in_range [Z.of_nat n]) (map fst it')
+      /\ forall j, in_range [Z.of_nat n] j ->
+           den (dok_as_coo [Z.of_nat n] it' fill) j = den (dok_as_coo sh items fill) (g j).
+Proof. exact dok_fancy_getitem_den_proof. Qed.
+Print Assumptions dok_fancy_getitem_den_partial.
+
+Theorem dok_getitem_empty_key_refuted :
+  exists sh (items : list (idx * Z)) fill,
+    dok_ok Z sh items /\ shape_okb sh = true /\ (exists sh' g, np_index sh [] = Ok (sh', g))
+    /\ dok_getitem Z Z.eqb Z.add (fun _ => 0%nat) sh items fill [] = Raise NotImplementedError.
+Proof. exact dok_getitem_empty_key_refuted_proof. Qed.
+Print Assumptions dok_getitem_empty_key_refuted.
+
+Theorem dok_fancy_refuted :
+  exists sh (items : list (idx * Z)) fill (ls : list (list Z)),
+    dok_ok Z sh items /\ shape_okb sh = true
+    /\ match np_index sh (map IArr ls), dok_getitem Z Z.eqb Z.add (fun _ => 0%nat) sh items fill (map IArr ls) with
+       | Ok (sh', g), Ok (DArr sh'' it' f') =>
+         sh'' = sh' /\ den (dok_as_coo sh'' it' f') [0] <> den (dok_as_coo sh items fill) (g [0])
+       | _, _ => False
+       end.
+Proof. exact dok_fancy_refuted_proof. Qed.
+Print Assumptions dok_fancy_refuted.
